@@ -147,6 +147,27 @@ def closure_obligations(sg, st):
     return bad
 
 
+def closure_reproduction(sg):
+    """statement-level replay of a closure failure: two descriptions of one crystal that are a *product* of two tabulated
+    normalizers apart must still give the same results (real analyzer, dataset scripted)"""
+    cands = [k for k, p in S.candidate_transforms(sg) if k != S.IDENTITY_KEY]
+    occs = S.occupations(sg, 1, S.ELEMENTS) + [o for o in S.occupations(sg, 2, S.ELEMENTS) if len(o) == 2][:60]
+    for k1 in cands:
+        for k2 in cands:
+            M = np.array([[float(v) for v in r] for r in k2]) @ np.array([[float(v) for v in r] for r in k1])
+            key = S.tkey(M)
+            for occ in occs:
+                vals = [[0.137, 0.291, 0.419] if i == 0 else [0.211, 0.347, 0.463] for i in range(len(occ))]
+                vals = [[v if "xyz"[j] in S.WYCKOFF_SETS[sg][l]["variables"] else 0.0 for j, v in enumerate(p)] for p, (l, _) in zip(vals, occ)]
+                try:
+                    msgs = conc_pair(sg, occ, vals, key)
+                except Exception:
+                    continue
+                if msgs:
+                    return [f"occupation {occ}, image under the product of two tabulated normalizers: " + m for m in msgs]
+    return []
+
+
 def orbit_bound(sg, tier):
     L = len(S.letters_of(sg))
     n = len(S.candidate_transforms(sg)) - 1
@@ -169,9 +190,11 @@ def run_group(arg):
     from symx.engine import _new_stats
     st_cl = _new_stats()
     bad = closure_obligations(sg, st_cl)
-    for comp in bad[:3]:
-        st_cl["violations"].append({"key": f"H06b:sg{sg}:closure", "what": f"space group {sg}: tabulated letter permutations are not closed under composition (e.g. {comp})",
-                                    "replay": {"kind": "closure", "sg": sg}, "reproduced": True})
+    if bad:
+        msgs = closure_reproduction(sg)
+        st_cl["violations"].append({"key": f"H06b:sg{sg}:closure", "what": f"space group {sg}: tabulated letter permutations are not closed under composition (e.g. {bad[0]}); "
+                                    + ("; ".join(msgs[:2]) if msgs else "no pair of descriptions with different results found"),
+                                    "replay": {"kind": "closure", "sg": sg}, "reproduced": bool(msgs)})
     st_cl["paths"] = 1
     if len(S.candidate_transforms(sg)) == 1:
         return sg, None, st_cl, 0
@@ -211,7 +234,8 @@ def replay(d):
     if d["kind"] == "closure":
         from symx.engine import _new_stats
         bad = closure_obligations(d["sg"], _new_stats())
-        return bool(bad), f"compositions outside the table: {bad[:2]}" if bad else "ok"
+        msgs = closure_reproduction(d["sg"]) if bad else []
+        return bool(msgs), ("; ".join(msgs[:3]) if msgs else ("closure fails but no differing pair of descriptions found" if bad else "ok"))
     from fractions import Fraction as F
     key = tuple(tuple(F(v) for v in row) for row in d["normalizer"])
     msgs = conc_pair(d["sg"], [tuple(o) for o in d["occupation"]], d["params"], key)
